@@ -198,6 +198,20 @@ impl World {
         self.record(format!("OEvent (EvChan {})", n), ob);
     }
 
+    /// the HEARTBEAT token after an absence long enough for both timers to have expired (the
+    /// timers are started with 100 ms on first use; the mio-extras timer wheel ticks every
+    /// 100 ms, so after 450 ms the Tx timeout (1 interval) and the Rx timeout (2 intervals)
+    /// are both reported, Tx first)
+    pub fn event_heartbeat_missed(&mut self) {
+        if self.dead || self.torn {
+            return;
+        }
+        let r = catch_unwind(AssertUnwindSafe(|| self.probe.event(ProbeEvent::Heartbeat { interval_ms: 100, away_ms: 450 })));
+        let ob = self.outcome(r);
+        self.stats.push("heartbeat-missed".into());
+        self.record("OEvent (EvHeartbeat [(HbTx, true); (HbRx, true)])".into(), ob);
+    }
+
     pub fn event_set_blocked(&mut self) {
         if self.dead || self.torn {
             return;
